@@ -156,6 +156,11 @@ class Sandbox:
             return p[len(self.root):] or '/'
         return p
 
+    def scrub(self, text):
+        """Remove the (random) sandbox directory name from a message so
+        that violation records are identical across runs."""
+        return str(text).replace(self.root, '<sandbox>')
+
     def inside(self, path):
         try:
             p = os.path.abspath(os.fspath(path))
